@@ -135,63 +135,69 @@ type hostile struct {
 	alpha string // A1-frames | A1-bytes
 }
 
-// hostileBodies enumerates, simplest first and without byte-identical
-// duplicates: every sequence of <= 3 frames over frameAlphabet, then every byte
-// string of length <= 5 over {00,01,7F,80,FF}.
-func hostileBodies() (bodies []hostile, nFrames int) {
-	fa := frameAlphabet()
-	seen := map[string]bool{}
-	add := func(b []byte, label, alpha string) {
-		if seen[string(b)] {
-			return
-		}
-		seen[string(b)] = true
-		bodies = append(bodies, hostile{b, label, alpha})
-	}
-	add([]byte{}, "frames[]", "A1-frames")
-	for _, a := range fa {
-		add(a.bytes, "frames["+a.desc+"]", "A1-frames")
-	}
-	for _, a := range fa {
-		for _, b := range fa {
-			add(cat(a.bytes, b.bytes), "frames["+a.desc+b.desc+"]", "A1-frames")
-		}
-	}
-	for _, a := range fa {
-		for _, b := range fa {
-			for _, c := range fa {
-				add(cat(a.bytes, b.bytes, c.bytes), "frames["+a.desc+b.desc+c.desc+"]", "A1-frames")
-			}
-		}
-	}
-	sym := []byte{0x00, 0x01, 0x7F, 0x80, 0xFF}
-	for l := 0; l <= 5; l++ {
-		n := 1
-		for i := 0; i < l; i++ {
-			n *= len(sym)
-		}
-		for k := 0; k < n; k++ {
-			b := make([]byte, l)
-			x := k
-			for i := l - 1; i >= 0; i-- {
-				b[i] = sym[x%len(sym)]
-				x /= len(sym)
-			}
-			add(b, "bytes:"+hex.EncodeToString(b), "A1-bytes")
-		}
-	}
-	return bodies, len(fa)
+var byteSyms = []byte{0x00, 0x01, 0x7F, 0x80, 0xFF}
+
+// hostileSet enumerates lazily, simplest first: every sequence of <= 3 frames
+// over frameAlphabet (byte-identical bodies produced by different sequences,
+// about 2%, are not removed), then every byte string of length <= 5 over byteSyms.
+type hostileSet struct {
+	fa      []frame
+	nSeq    int // 1 + F + F^2 + F^3
+	nBytes  int // 5^0 + ... + 5^5
+	seqBase [4]int
 }
 
-func cat(bs ...[]byte) []byte {
-	var out []byte
-	for _, b := range bs {
-		out = append(out, b...)
+func newHostileSet() *hostileSet {
+	h := &hostileSet{fa: frameAlphabet()}
+	f := len(h.fa)
+	h.seqBase = [4]int{0, 1, 1 + f, 1 + f + f*f}
+	h.nSeq = 1 + f + f*f + f*f*f
+	n := 1
+	for l := 0; l <= 5; l++ {
+		h.nBytes += n
+		n *= len(byteSyms)
 	}
-	if out == nil {
-		out = []byte{}
+	return h
+}
+
+func (h *hostileSet) len() int { return h.nSeq + h.nBytes }
+
+func (h *hostileSet) at(i int) hostile {
+	f := len(h.fa)
+	if i < h.nSeq {
+		k := 3
+		for i < h.seqBase[k] {
+			k--
+		}
+		x := i - h.seqBase[k]
+		idx := make([]int, k)
+		for j := k - 1; j >= 0; j-- {
+			idx[j] = x % f
+			x /= f
+		}
+		body := []byte{}
+		label := "frames["
+		for _, j := range idx {
+			body = append(body, h.fa[j].bytes...)
+			label += h.fa[j].desc
+		}
+		return hostile{body, label + "]", "A1-frames"}
 	}
-	return out
+	i -= h.nSeq
+	n := 1
+	for l := 0; ; l++ {
+		if i < n {
+			b := make([]byte, l)
+			x := i
+			for j := l - 1; j >= 0; j-- {
+				b[j] = byteSyms[x%len(byteSyms)]
+				x /= len(byteSyms)
+			}
+			return hostile{b, "bytes:" + hex.EncodeToString(b), "A1-bytes"}
+		}
+		i -= n
+		n *= len(byteSyms)
+	}
 }
 
 // ---- the case space -----------------------------------------------------
@@ -236,7 +242,7 @@ type a2base struct {
 
 type space struct {
 	tier       string
-	hostile    []hostile
+	hostile    *hostileSet
 	nFrameSyms int
 	endingsA1  []bool
 	endingsA2  []bool
@@ -250,7 +256,8 @@ var sideModes = [][2]string{{"client", "stream"}, {"client", "single"}, {"server
 
 func buildSpace(tier string) (*space, error) {
 	s := &space{tier: tier}
-	s.hostile, s.nFrameSyms = hostileBodies()
+	s.hostile = newHostileSet()
+	s.nFrameSyms = len(s.hostile.fa)
 	s.endingsA2 = []bool{false, true}
 	if tier == "thorough" {
 		s.endingsA1 = []bool{false, true}
@@ -269,7 +276,7 @@ func buildSpace(tier string) (*space, error) {
 			s.a2 = append(s.a2, a2base{r, c})
 		}
 	}
-	s.nA1 = len(s.hostile) * len(sideModes) * len(s.endingsA1) * len(s.deliveries)
+	s.nA1 = s.hostile.len() * len(sideModes) * len(s.endingsA1) * len(s.deliveries)
 	s.nA2 = len(s.a2) * len(s.endingsA2) * len(s.deliveries)
 	return s, nil
 }
@@ -284,7 +291,7 @@ func (s *space) at(i int) *Case {
 		i /= len(s.endingsA1)
 		sm := i % len(sideModes)
 		i /= len(sideModes)
-		h := s.hostile[i]
+		h := s.hostile.at(i)
 		return &Case{Alphabet: h.alpha, Side: sideModes[sm][0], Mode: sideModes[sm][1], BodyHex: hex.EncodeToString(h.body), body: h.body,
 			Abrupt: s.endingsA1[e], Delivery: s.deliveries[d], Label: h.label}
 	}
